@@ -338,6 +338,11 @@ def run(prog, check):
     from ..cfg import atomic_facts
     pf, okx, whyx = exogenous_applied(prog)
     check.saw(pf)
+    from ._common import registration_order_kept
+    for rf_o, c_o, ok_o, why_o in registration_order_kept(prog, 'Exogenous'):
+        check.saw(rf_o)
+        check.ob('C09.R5', '%s::registrations-in-call-order(%s)' % (rf_o.key, c_o.func.attr), ok_o, '%s:%d' % (rf_o.module.rel, c_o.lineno), why_o,
+                 "a builder's book path for G, then the user's own path for G")
     check.ob('C09.R5', '%s::exogenous-entries-applied' % pf.key, okx, pf.where, whyx,
              'a builder with its book path, then SetExogenous with the user\'s G / r path')
     # book-specific data (paths, initial conditions) is installed by a builder only when the book set-up was asked for
